@@ -278,6 +278,9 @@ def _plain_literal(e) -> bool:
         return True
     if isinstance(e, ast.UnaryOp) and isinstance(e.op, (ast.USub, ast.UAdd)) and isinstance(e.operand, ast.Constant) and isinstance(e.operand.value, (int, float)):
         return True
+    if isinstance(e, ast.BinOp) and isinstance(e.op, (ast.Mult, ast.Pow, ast.Add, ast.Sub)) and isinstance(e.left, ast.Constant) and isinstance(e.right, ast.Constant) \
+            and isinstance(e.left.value, (str, int, float)) and isinstance(e.right.value, (str, int, float)):
+        return True     # "{" * 1000, 10 ** 8: a literal spelled as arithmetic on literals
     if isinstance(e, (ast.Tuple, ast.List)):
         return all(_plain_literal(x) for x in e.elts)
     if isinstance(e, ast.Dict):
@@ -285,10 +288,34 @@ def _plain_literal(e) -> bool:
     return False
 
 
-def inline_new_constants(tree: ast.Module, rel: str):
+def new_module_constants(tree: ast.Module, rel: str):
+    """{NAME: source text of its literal} for the module-level constants `inline_new_constants` would read as literals (used for the
+    modules that import them)"""
+    base = baseline_constants().get(rel)
+    if base is None:
+        return {}
+    stores = {}
+    for n in ast.walk(tree):
+        if isinstance(n, ast.Name) and isinstance(n.ctx, (ast.Store, ast.Del)):
+            stores[n.id] = stores.get(n.id, 0) + 1
+        elif isinstance(n, (ast.Global, ast.Nonlocal)):
+            for x in n.names:
+                stores[x] = stores.get(x, 0) + 2
+        elif isinstance(n, ast.arg):
+            stores[n.arg] = stores.get(n.arg, 0) + 1
+    out = {}
+    for st in tree.body:
+        tg = st.targets[0] if isinstance(st, ast.Assign) and len(st.targets) == 1 else (st.target if isinstance(st, ast.AnnAssign) and st.value is not None else None)
+        if isinstance(tg, ast.Name) and _plain_literal(st.value) and tg.id not in base and stores.get(tg.id) == 1 and tg.id.upper() == tg.id \
+                and any(c.isalpha() for c in tg.id):
+            out[tg.id] = ast.unparse(st.value)
+    return out
+
+
+def inline_new_constants(tree: ast.Module, rel: str, foreign=None):
     """A module-level `NAME = <literal>` / class-level `NAME = <literal>` that is not in the name inventory of the pinned tree, is bound exactly once and is
-    never the target of a store / `global` elsewhere reads as the literal at every use (`NAME`, `self.NAME`, `cls.NAME`, `Class.NAME`).  Only names the
-    module itself defines (a constant imported from another module is left alone).  Returns (tree, [names])."""
+    never the target of a store / `global` elsewhere reads as the literal at every use (`NAME`, `self.NAME`, `cls.NAME`, `Class.NAME`).  `foreign` maps the
+    local names under which this module imports such constants of other modules to their literal text.  Returns (tree, [names])."""
     base = baseline_constants().get(rel)
     if base is None:
         return tree, []
@@ -318,6 +345,13 @@ def inline_new_constants(tree: ast.Module, rel: str):
                 nm, v = one(b)
                 if nm and f"{st.name}.{nm}" not in base and stores.get(nm) == 1 and not stores.get("." + nm) and nm.upper() == nm and any(c.isalpha() for c in nm):
                     cls_consts.setdefault(st.name, {})[nm] = v
+    # a new constant of another module, imported here by name (and never rebound here)
+    for local, text in (foreign or {}).items():
+        if not stores.get(local) and local not in mod_consts:
+            try:
+                mod_consts[local] = ast.parse(text, mode="eval").body
+            except SyntaxError:
+                pass
     if not mod_consts and not cls_consts:
         return tree, []
     all_cls = {nm: v for d in cls_consts.values() for nm, v in d.items()}
